@@ -23,7 +23,7 @@ EXPLANATION = (
     "small degree/radian unit inference over the trigonometric calls.")
 NOT_DECIDED = ["numerical agreement of vectors with lengths/angles, near-degenerate cells", "positive volume for valid angle triples (numerical)"]
 ASSUMPTIONS = ["numpy trigonometric functions take radians"]
-FLOORS = {"C17-R1": 20, "C17-R2": 3, "C17-R3": 8, "C17-R4": 20, "C17-R5": 12}
+FLOORS = {"C17-R1": 20, "C17-R2": 3, "C17-R3": 8, "C17-R4": 20, "C17-R5": 12, "C17-R6": 4}
 
 UC = "mdtraj/utils/unitcell.py"
 TRAJ = "mdtraj/core/trajectory.py"
@@ -61,6 +61,8 @@ def check(ctx):
     ctx.rule("C17-R2", "lengths_and_angles_to_box_vectors builds a = (a,0,0) and b = (bx,by,0) with literal zeros")
     ctx.rule("C17-R3", "the unitcell_vectors getter/setter pass columns 0,1,2 of lengths then angles in the callee's parameter order and stack (a,b,c)/(alpha,beta,gamma) in that order")
     ctx.rule("C17-R4", "unitcell_lengths and unitcell_angles are passed, assigned and cleared together at every site")
+    ctx.rule("C17-R6", "LAMMPS bounding-box offsets: writer adds and reader subtracts min/max over (0, xy, xz, xy+xz) and (0, yz)")
+    lammps_bounds(ctx, "C17-R6")
     ctx.rule("C17-R5", "angles in degrees are converted to radians before cos/sin; arccos results are converted to degrees before being returned; volumes are det(unitcell_vectors)")
 
     # ------------------------------------------------------------------ R1, R2, R5 on unitcell.py
@@ -355,3 +357,36 @@ def _r4(ctx):
         ctx.decide(bool(ifs), "C17-R4", sl, TRAJ, "Trajectory.slice", "%s sliced under its own None test" % f, "", "slice no longer carries %s when present" % f)
     if n_sites < 15:
         raise AnalysisError("only %d unit-cell construction/assignment sites found" % n_sites)
+
+
+def lammps_bounds(ctx, rule):
+    """LAMMPS stores a triclinic box as bounding-box extents: bound = lo/hi + min/max(0, xy, xz, xy+xz) (x) and (0, yz) (y).
+    The writer and the reader must use the same offset sets (the reader subtracts what the writer added) and they must be the
+    LAMMPS ones; otherwise lengths read back differ from the cell that was saved."""
+    spec = {"x": {"0.0", "xy", "xz", "xy + xz"}, "y": {"0.0", "yz"}}
+
+    def offsets(fn, by_target):
+        out = {}
+        for n in walk_no_nested(fn):
+            if isinstance(n, ast.Assign) and isinstance(n.value, ast.BinOp) and isinstance(n.value.right, ast.Call):
+                cn = call_name(n.value.right)
+                if cn in ("np.min", "np.max", "min", "max"):
+                    t = dotted(n.targets[0]) or ""
+                    arg = n.value.right.args[0]
+                    elts = {src(e) for e in (arg.elts if isinstance(arg, (ast.List, ast.Tuple)) else n.value.right.args)}
+                    elts = {"0.0" if e in ("0", "0.0") else e for e in elts}
+                    out[t] = (type(n.value.op).__name__, cn.split(".")[-1], elts, n)
+        return out
+    w = offsets(ctx.py.func(LMP, "LAMMPSTrajectoryFile.write_box"), True)
+    r = offsets(ctx.py.func(LMP, "LAMMPSTrajectoryFile.parse_box"), False)
+    pairs = [("xlo_bound", "xlo", "min", "x"), ("xhi_bound", "xhi", "max", "x"), ("ylo_bound", "ylo", "min", "y"), ("yhi_bound", "yhi", "max", "y")]
+    for wb, rb, f, ax in pairs:
+        a, b = w.get(wb), r.get(rb)
+        node = (a or b or (None, None, None, ctx.py.func(LMP, "LAMMPSTrajectoryFile.write_box")))[3]
+        if a is None or b is None:
+            ctx.violated(rule, node, LMP, "LAMMPSTrajectoryFile.write_box", "%s / %s offsets" % (wb, rb), "bounding-box offset of %s not found in %s" % (wb, "writer" if a is None else "reader"))
+            continue
+        ok = a[0] == "Add" and b[0] == "Sub" and a[1] == f and b[1] == f and a[2] == b[2] == spec[ax]
+        ctx.decide(ok, rule, a[3], LMP, "LAMMPSTrajectoryFile.write_box", "%s = %s + %s(%s); reader subtracts the same" % (wb, rb, f, ", ".join(sorted(spec[ax]))), "",
+                   "writer: %s %s %s(%s); reader: %s %s %s(%s); LAMMPS defines %s(%s) - the box read back is not the box that was written whenever the omitted term is the extreme one "
+                   "(e.g. both tilt factors negative)" % (wb, a[0], a[1], sorted(a[2]), rb, b[0], b[1], sorted(b[2]), f, sorted(spec[ax])))
